@@ -31,6 +31,8 @@ pub fn exec_case(line: &str) -> Option<Vec<u64>> {
         "PESF" => { let f: u64 = toks[1].parse().unwrap(); let p: Vec<Vec<u8>> = toks[2..].iter().map(|t| unhex(t)).collect(); guarded(move || app::run_pesf(f, &p)) }
         "DMX" => { let f: u64 = toks[1].parse().unwrap(); let s = app::parse_scripts(toks[2]); let p: Vec<Vec<u8>> = toks[3..].iter().map(|t| unhex(t)).collect();
                    guarded(move || app::run_dmx(f, s, &p)) }
+        "DMXQ" => { let f: u64 = toks[1].parse().unwrap(); let s = app::parse_scripts(toks[2]); let p: Vec<Vec<u8>> = toks[3..].iter().map(|t| unhex(t)).collect();
+                    guarded(move || app::run_dmx(f | 4, s, &p)) }
         "AF" => { let b = unhex(toks[1]); guarded(move || obs::run_af(&b)) }
         k => panic!("unknown case kind {}", k),
     }
